@@ -173,6 +173,14 @@ pub struct C03State {
     pub live_rst: bool,
     /// the side has shown "FIN received"
     pub fin_seen: [bool; 2],
+    /// bytes received and still unread by the application when the TCB was deleted
+    pub unread_at_release: [usize; 2],
+}
+
+/// bytes of the peer's stream this side holds: read by the application, buffered, or buffered
+/// when its TCB was deleted
+fn holds(ex: &Exec, x: SideId) -> usize {
+    ex.side(x).delivered.len() + ex.snap_ref(x).map_or(ex.c03.as_ref().unwrap().unread_at_release[x as usize], |s| s.incoming_text.len())
 }
 
 fn fin_received(s: State) -> bool {
@@ -223,6 +231,9 @@ pub fn after_op(ex: &mut Exec, x: SideId, w: &[&str], before: Option<VerifTcbSna
     }
     if from != to {
         out.count(&format!("tr.{}>{}", st_name(from), st_name(to)));
+    }
+    if let (Some(b), None) = (&before, &after) {
+        ex.c03.as_mut().unwrap().unread_at_release[x as usize] = b.incoming_text.len();
     }
     // ---- released by a RST ----
     if before.is_some() && after.is_none() && arriving.map_or(false, |h| h.ctl.rst()) {
@@ -403,8 +414,7 @@ pub fn fair_close_phase(ex: &mut Exec, net: &mut Net, out: &mut Out, both: bool)
             }
         }
         let closed_both = sides.iter().all(|x| ex.c03.as_ref().unwrap().closed[*x as usize] || ex.side(*x).tcb.is_none());
-        let data_ok = ex.b.delivered.len() + ex.snap_ref(SideId::B).map_or(0, |s| s.incoming_text.len()) >= ex.a.submitted.len()
-            && ex.a.delivered.len() + ex.snap_ref(SideId::A).map_or(0, |s| s.incoming_text.len()) >= ex.b.submitted.len();
+        let data_ok = holds(ex, SideId::B) >= ex.a.submitted.len() && holds(ex, SideId::A) >= ex.b.submitted.len();
         let settled = sides.iter().all(|x| match ex.snap_ref(*x) {
             None => true,
             Some(s) => {
@@ -421,7 +431,7 @@ pub fn fair_close_phase(ex: &mut Exec, net: &mut Net, out: &mut Out, both: bool)
                 out,
                 &format!(
                     "both TCBs were released but data is missing: A submitted {} B holds {}; B submitted {} A holds {}",
-                    ex.a.submitted.len(), ex.b.delivered.len(), ex.b.submitted.len(), ex.a.delivered.len()
+                    ex.a.submitted.len(), holds(ex, SideId::B), ex.b.submitted.len(), holds(ex, SideId::A)
                 ),
                 "released-before-data-delivered",
             );
@@ -436,7 +446,7 @@ pub fn fair_close_phase(ex: &mut Exec, net: &mut Net, out: &mut Out, both: bool)
                     &format!(
                         "after 60 loss-free RTO rounds{}: A submitted {} B holds {}; B submitted {} A holds {}; A: {}; B: {}",
                         if closed_both { " with both sides closed" } else { "" },
-                        ex.a.submitted.len(), ex.b.delivered.len(), ex.b.submitted.len(), ex.a.delivered.len(), describe(ex, SideId::A), describe(ex, SideId::B)
+                        ex.a.submitted.len(), holds(ex, SideId::B), ex.b.submitted.len(), holds(ex, SideId::A), describe(ex, SideId::A), describe(ex, SideId::B)
                     ),
                     ident,
                 );
@@ -534,6 +544,37 @@ pub fn sched_case(ex: &mut Exec, rng: &mut Rng, out: &mut Out, steps: u64) {
     let mut net = Net { pending: vec![] };
     let mut seed = rng.next() % 1_000_000;
     let mut written: u64 = 0;
+    // directed prelude (1/4 of the cases): a close while more than a window of data is queued, so
+    // that the FIN has to wait for text that the peer's window does not admit yet —
+    // in FIN-WAIT-1 / CLOSING (the closing side is the writer) or in LAST-ACK (the peer closed first)
+    let prelude = rng.below(8);
+    if prelude < 2 && !old_syn && !aborts {
+        out.count(if prelude == 0 { "prelude.finwait1_pending" } else { "prelude.lastack_pending" });
+        for _ in 0..4 {
+            quiesce(ex, &mut net, out);
+        }
+        let w = if prelude == 0 { SideId::A } else { SideId::B };
+        let n = rng.range(66000, 100000);
+        written += n;
+        seed += 1;
+        ex.apply(&format!("write {} {} {}", w.name(), n, seed), out);
+        ex.apply(&format!("emit {}", w.name()), out);
+        for i in ex.last_emitted.clone() {
+            net.pending.push((w.peer(), i));
+        }
+        if prelude == 1 {
+            // the reader closes first and its FIN overtakes nothing: B goes to CLOSE-WAIT
+            ex.apply("close A", out);
+            ex.apply("emit A", out);
+            for i in ex.last_emitted.clone() {
+                deliver(ex, &mut net, SideId::B, i, out);
+            }
+        }
+        ex.apply(&format!("close {}", w.name()), out);
+        if rng.chance(1, 2) && prelude == 0 {
+            ex.apply("close B", out);
+        }
+    }
     for _ in 0..steps {
         if ex.dead {
             return;
